@@ -1348,7 +1348,8 @@ fn main() {
             // releases them so that they do not leak into the next case
             ev(r#"{"e":"flush"}"#.to_string());
             drop(Stakker::new(process_base));
-            ev(format!(r#"{{"e":"end","leakcheck":{}}}"#, leakcheck));
+            let flushcheck = !case.get("noflushcheck").and_then(|v| v.as_bool()).unwrap_or(false);
+            ev(format!(r#"{{"e":"end","leakcheck":{},"flushcheck":{}}}"#, leakcheck, flushcheck));
         }));
         if res.is_err() {
             let msg = PANIC_MSG.with(|p| p.borrow_mut().take()).unwrap_or_default();
